@@ -4,7 +4,6 @@ import (
 	"fmt"
 	"github.com/aml-org/amf-custom-validator/internal/misc"
 	"github.com/aml-org/amf-custom-validator/internal/parser/profile"
-	"strings"
 )
 
 func GenerateScalarSubSetRule(containsAll profile.ScalarSetRule, iriExpander *misc.IriExpander) []SimpleRegoResult {
@@ -25,7 +24,7 @@ func GenerateScalarSubSetRule(containsAll profile.ScalarSetRule, iriExpander *mi
 		"    mapped := as_string(original)\n}\n" // cast value to string for matching with argument value
 	rego = append(rego, fmt.Sprintf(rego_convert_to_string_set, actualValuesVariable, actualValuesVariable))
 
-	rego = append(rego, fmt.Sprintf("%s = { \"%s\"}", containsAllVariable, strings.Join(containsAll.Argument, "\",\"")))
+	rego = append(rego, fmt.Sprintf("%s = { %s}", containsAllVariable, regoStringList(containsAll.Argument)))
 
 	// assert that all containsAll are contained in actualValues
 	if containsAll.Negated {
@@ -49,7 +48,7 @@ func GenerateScalarSubSetRule(containsAll profile.ScalarSetRule, iriExpander *mi
 		Path:       tracePath,
 		TraceNode:  containsAll.Variable.Name,
 		TraceValue: BuildTraceValueNode(
-			fmt.Sprintf("\"negated\":%t,\"actual\": %s,\"expected\": \"%s\"", containsAll.Negated, fmt.Sprintf("%s_string", actualValuesVariable), containsAll.JSONValues()),
+			fmt.Sprintf("\"negated\":%t,\"actual\": %s,\"expected\": \"%s\"", containsAll.Negated, fmt.Sprintf("%s_string", actualValuesVariable), regoStringContent(jsonStringList(containsAll.Argument))),
 		),
 		Variable: actualValuesVariable,
 	}
